@@ -201,6 +201,8 @@ class Rig:
         self.by_endpoint: dict = {}
         self.armed: dict = {}
         self.event = None
+        self.unsub_in_delivery = None
+        self.unsub_during_event = {}
         self.tick_in_delivery = None
         self.tick_completed_in_delivery = None
         self.wedged = False
@@ -297,6 +299,22 @@ class Rig:
         return hib.Action, hib.To, tuple(sorted((el.tag, el.text) for el in hib.reference_parameters)), None
 
     def policy(self, entry):
+        pending = getattr(self, 'unsub_in_delivery', None)
+        if pending and entry.netloc != self.base.netloc and not self.is_async:
+            # schedule control: while this report is being delivered to one subscriber, other subscribers unsubscribe (their
+            # UnsubscribeResponse returns before the sender reaches them).  Feasible for the synchronous managers only: they do not
+            # hold the subscriptions lock while sending (the async managers do - a real Unsubscribe would wait).
+            self.unsub_in_delivery = None
+            target = self.by_endpoint.get((entry.netloc, entry.path))
+            for idx in pending:
+                sub = self.subs[idx % len(self.subs)] if self.subs else None
+                if sub is None or (target is not None and target[1] == sub['k']):
+                    continue
+                if self.event is not None and self.event.get('mgr') != sub['mgr']:
+                    continue
+                self.do_request({'op': 'request', 'kind': 'unsubscribe', 'sub': idx})
+                self.unsub_during_event[sub['k']] = len(self.handoffs)
+                self.ctx.count('schedule.unsubscribe_during_delivery')
         if self.tick_in_delivery is not None and entry.netloc != self.base.netloc:
             # schedule control: a housekeeping tick becomes due while this delivery is in progress
             dt, self.tick_in_delivery = self.tick_in_delivery, None
@@ -370,6 +388,15 @@ class Rig:
             if to != sub['notify'][0] or refparams != sub['notify'][1]:
                 self.witness('notify.wrong_address', 'notification not addressed to the NotifyTo EPR (address + reference parameters)',
                              sub=k, to=to, refparams=refparams, notify=sub['notify'])
+        during = getattr(self, 'unsub_during_event', {})
+        for k, idx in list(during.items()):
+            late = [r for r in got.get(k, []) if self.handoffs.index(r) >= idx]
+            if late:
+                self.witness(f'deliver.after_unsubscribe.during_send.{self.sa}',
+                             'report handed to a subscriber after its UnsubscribeResponse was returned (it unsubscribed while the same report was '
+                             'being delivered to another subscriber)', sub=k, action=ev['action'])
+            ev['expect'][k] = None  # both "sent before the Unsubscribe" and "not sent" are fine
+        during.clear()
         for k, exp in ev['expect'].items():
             recs = got.get(k, [])
             n = len(recs)
@@ -735,6 +762,8 @@ class Rig:
         else:
             weights = {'descr': {'descr_update': 2, 'descr_create': 1}}.get(kind, {kind: 1})
             op = mdibops.gen_op(random.Random(st['seed']), mdib, self.memo, weights)
+            if st.get('unsubscribe_in_delivery'):
+                self.unsub_in_delivery = list(st['unsubscribe_in_delivery'])
             if st.get('tick_in_delivery'):
                 ap = self.transaction_with_tick(op, st['tick_in_delivery'])
             else:
@@ -1020,6 +1049,10 @@ def directed(limit):
         sub_step(subscriber=2, expires=None), {'op': 'report', 'kind': 'opinvoked', 'seed': 5}, adv(0.9),
         {'op': 'report', 'kind': 'metric', 'seed': 1, 'tick_in_delivery': 0.2}, rep, req('getstatus', 0), req('getstatus', 1), adv(2.5),
         req('getstatus', 0), rep, {'op': 'stop', 'send_end': True}]
+    out['unsubscribe_during_delivery'] = [
+        sub_step(subscriber=0), sub_step(subscriber=1), sub_step(subscriber=2), sub_step(subscriber=3, flt=('EpisodicAlertReport',)), rep,
+        {'op': 'report', 'kind': 'metric', 'seed': 7, 'unsubscribe_in_delivery': [0, 1, 2]}, rep,
+        {'op': 'report', 'kind': 'metric', 'seed': 8, 'unsubscribe_in_delivery': [0, 1, 2]}, rep, alert, {'op': 'stop', 'send_end': True}]
     bog = []
     for kind in ('renew', 'getstatus', 'unsubscribe'):
         for b in ('random_id', 'no_id', 'wrong_service', 'foreign_refparam'):
